@@ -85,6 +85,17 @@ static void ecb(struct evconnlistener *, void *);
 
 static int fd_is_open(int fd) { return fcntl(fd, F_GETFD) != -1 || errno != EBADF; }
 
+/* fd-table signature: which of the first MAXFD descriptors are open.  (Same idea as
+ * mcx_fd_signature(), without opendir's 32 KiB ASan-tracked buffer per call; descriptors are
+ * handed out lowest-first and an execution never holds more than ~20.) */
+#define MAXFD 96
+static uint64_t fd_table_signature(void)
+{
+	uint64_t h = 0x66647369;
+	for (int fd = 0; fd < MAXFD; fd++) if (fd_is_open(fd)) h = mc_hash_u64(h, fd);
+	return h;
+}
+
 static int is_retriable(int e) { return e == EINTR || e == EAGAIN || e == EWOULDBLOCK || e == ECONNABORTED; }
 
 static void hard_close(int fd)
@@ -427,7 +438,7 @@ static void body(void)
 {
 	int D = mc_param("depth", 5);
 	long live0 = mcx_alloc_live();
-	uint64_t fds0 = mcx_fd_signature();
+	uint64_t fds0 = mc_param("fdsig", 0) ? mcx_fd_signature() : fd_table_signature();
 	int threads = mc_param("threads", 1);
 
 	memset(&M, 0, sizeof M); memset(cli, 0, sizeof cli); memset(rec, 0, sizeof rec);
@@ -522,7 +533,7 @@ static void body(void)
 	event_base_free(base); base = NULL;
 	MC_COUNT("oracle_baselines_checked");
 	if (mcx_alloc_live() != live0) mc_fail("C44/memory-leak", "%ld library allocations outlive listener and base", mcx_alloc_live() - live0);
-	if (mcx_fd_signature() != fds0) mc_fail("C44/fd-leak", "fd table differs from the baseline after everything handed to the harness was closed");
+	if ((mc_param("fdsig", 0) ? mcx_fd_signature() : fd_table_signature()) != fds0) mc_fail("C44/fd-leak", "fd table differs from the baseline after everything handed to the harness was closed");
 }
 
 int main(int c, char **v)
